@@ -1699,7 +1699,7 @@ class SequenceOfAndSetOfBase(base.ConstructedAsn1Type):
         if stop is None:
             stop = len(self)
 
-        indices, values = zip(*self._componentValues.items())
+        indices, values = zip(*sorted(self._componentValues.items()))
 
         # TODO: remove when Py2.5 support is gone
         values = list(values)
